@@ -99,6 +99,8 @@ func runC16(tier string, seed uint64) {
 		newTwin("base-fallback-base-itself", "bases", bases),
 		newTwin("base-fallback-multilabel", "bases", bases),
 		newTwin("base-fallback-unrelated", "bases", bases),
+		newTwin("base-fallback-no-dot", "bases", bases), // a host that merely ends in the text of a base
+		newTwin("base-fallback-empty-label", "bases", bases),
 		// one base is a suffix of another: the longer one has to be reached whatever the order
 		newTwin("base-nested-short-first", "bases", []string{"example.com", "s3.example.com"}),
 		newTwin("base-nested-long-first", "bases", []string{"s3.example.com", "example.com"}),
@@ -225,6 +227,10 @@ func runC16(tier string, seed uint64) {
 				host = "x." + l.bucket + ".s3.example.com"
 			case "base-fallback-unrelated":
 				host = l.bucket + ".elsewhere.org"
+			case "base-fallback-no-dot":
+				host = l.bucket + "s3.example.com"
+			case "base-fallback-empty-label":
+				host = ".s3.example.com"
 			case "path-extra-leading-slash":
 				path = l.pathStyle("//", "")
 			case "path-trailing-slash":
@@ -283,7 +289,7 @@ func runC16(tier string, seed uint64) {
 			nontrivial(t.name + "|" + l.method + "|" + l.query + "|" + l.bucket + "|" + l.key)
 		}
 	}
-	sample("each logical request (create/put/get/range/head/delete/list V1+V2/versions/location/versioning/multi-delete/copy/multipart initiate+part+list+complete (its Location followed)+abort/unknown methods over 2 buckets x 16 keys incl. spaces, UTF-8, dots, nesting, empty / '.' / '..' segments) is sent to 19 twin servers: path-style; host-bucket; host-bucket-base with one base, two bases (first and second base, configured with stray dots and a port), fallbacks (localhost, the base itself, multi-label prefix, unrelated host), two bases one of which is a suffix of the other (both orders, both hosts), host-bucket and host-bucket-base configured together (base host and every fallback); path-style with an extra leading and a trailing slash")
+	sample("each logical request (create/put/get/range/head/delete/list V1+V2/versions/location/versioning/multi-delete/copy/multipart initiate+part+list+complete (its Location followed)+abort/unknown methods over 2 buckets x 16 keys incl. spaces, UTF-8, dots, nesting, empty / '.' / '..' segments) is sent to 21 twin servers: path-style; host-bucket; host-bucket-base with one base, two bases (first and second base, configured with stray dots and a port), fallbacks (localhost, the base itself, multi-label prefix, unrelated host, a host that only ends in the text of a base), two bases one of which is a suffix of the other (both orders, both hosts), host-bucket and host-bucket-base configured together (base host and every fallback); path-style with an extra leading and a trailing slash")
 }
 
 func uniq(xs []string, skip bool) []string {
